@@ -14,6 +14,7 @@ from vx import (
     Undecided,
     Unsupported,
     extract_arm,
+    extract_closure,
     extract_fn,
     extract_type,
     impl_header,
@@ -164,6 +165,23 @@ def build_unit(sidecar_path, sources, variant=None):
         u.fns.append(ch)
         if f.get("after"):
             groups.append((None, None, [Chunk("after:" + f["path"], f["after"], kind="spec")]))
+    # R31 closure conversion
+    for a in sc.get("closure_fn", []):
+        src = sources(a.get("source", default_src))
+        ex = extract_closure(src, a, rules)
+        for k, v in ex["counts"].items():
+            u.counts[k] = u.counts.get(k, 0) + v
+        ob = f"{u.name}/{a.get('ob', a['name'])}"
+        body = f"// ---- closure #{a.get('n', 0)} of {a['path']} converted to a method (R31) from {src.label} bytes {ex['item']['range']}  obligation {ob}\n" + ex["text"]
+        tyname = a.get("impl_type")
+        vn = f"{u.name}::{tyname}::{a['name']}" if tyname else f"{u.name}::{a['name']}"
+        ch = Chunk("closure:" + a["name"], body, ob=ob, kind="fn", meta={"hash": ex["hash"], "raw": ex["raw"], "vnames": [vn], "spec": dict(a, path=a["path"] + " closure #" + str(a.get("n", 0))), "trait_impl": False})
+        u.functions_under_contract.append(a["path"] + " :: closure #" + str(a.get("n", 0)))
+        u.fns.append(ch)
+        if a.get("impl_header"):
+            groups.append((("closure", a["name"]), a["impl_header"], [ch]))
+        else:
+            groups.append((None, None, [ch]))
     # R16 arm extraction
     for a in sc.get("arm", []):
         src = sources(a.get("source", default_src))
